@@ -178,7 +178,42 @@ fn typed_word(e: &ParseError) -> &'static str {
 }
 
 // record types without a row in the C05 schema table (coq/C05/Model.v irregular_types)
-const IRREGULAR: &[u16] = &[41, 45];
+const IRREGULAR: &[u16] = &[];
+
+
+/// Control-flow skeleton of the dig-style printer's output.
+fn dig_skeleton(text: &str) -> String {
+    let mut out: Vec<String> = vec![];
+    #[derive(PartialEq)] enum St { None, Opt, Q, Sec }
+    let mut st = St::None;
+    let mut opt = String::new();
+    let mut seen_edns = false;
+    for line in text.split('\n') {
+        if line == ";; OPT PSEUDOSECTION:" { st = St::Opt; opt = "O".to_string(); seen_edns = false; continue; }
+        if st == St::Opt && (line.is_empty() || line.starts_with(";; ")) { out.push(opt.clone()); st = St::None; }
+        if line == ";; QUESTION SECTION:" { st = St::Q; out.push("QH".into()); continue; }
+        if line == ";; ANSWER SECTION:" { st = St::Sec; out.push("S1".into()); continue; }
+        if line == ";; AUTHORITY SECTION:" { st = St::Sec; out.push("S2".into()); continue; }
+        if line == ";; ADDITIONAL SECTION:" { st = St::Sec; out.push("S3".into()); continue; }
+        if line.is_empty() { continue; }
+        match st {
+            St::Opt => {
+                if !seen_edns && line.starts_with("; EDNS:") { seen_edns = true; }
+                else if line.starts_with("; ERROR: bad option") { opt.push('0'); }
+                // lines of displayed options are not counted: option data may print raw line breaks
+            }
+            St::Q => { if line == "; <invalid message>" { out.push("!".into()); } else { out.push("q".into()); } }
+            St::Sec => {
+                if line == "; <invalid message>" { out.push("!".into()); }
+                else if line.starts_with("; ") && line.ends_with("<invalid data>") { out.push("r0".into()); }
+                // lines of displayed records are not counted: record data may print raw line breaks
+            }
+            St::None => {}
+        }
+    }
+    if st == St::Opt { out.push(opt); }
+    if out.is_empty() { "-".to_string() } else { out.join(" ") }
+}
 
 fn obs_ops(bytes: &[u8], ops: &str) -> String {
     let b2 = bytes.to_vec();
@@ -242,6 +277,46 @@ fn obs_ops(bytes: &[u8], ops: &str) -> String {
                     }
                     format!("t:{}", if v.is_empty() { "-".to_string() } else { v.join(",") })
                 }
+                "O" => match msg.opt() {
+                    None => "o:none".to_string(),
+                    Some(o) => {
+                        let mut v = vec![];
+                        for x in o.opt().iter::<AllOptData<_, _>>() { match x { Ok(_) => v.push("ok".to_string()), Err(_) => v.push("e".to_string()) } if v.len() > 70_000 { break; } }
+                        format!("o:{}", if v.is_empty() { "-".to_string() } else { v.join(",") })
+                    }
+                },
+                "L" => {
+                    let mut it = arg.split('_');
+                    let i: usize = it.next().and_then(|x| x.parse().ok()).unwrap_or(0);
+                    let code: u32 = it.next().and_then(|x| x.parse().ok()).unwrap_or(0);
+                    match st.get(i).copied() {
+                        Some(Obj::R(sec)) => {
+                            macro_rules! cnt { ($it:expr) => {{ let mut ok = 0u32; let mut err = 0u32; for x in $it { match x { Ok(_) => ok += 1, Err(_) => err += 1 } if ok + err > 200_000 { break; } } format!("n {} {}", ok, err) }}; }
+                            match code {
+                                0 => cnt!(sec.limit_to::<AllRecordData<_, _>>()),
+                                65537 => cnt!(sec.limit_to_in::<AllRecordData<_, _>>()),
+                                65536 => cnt!(sec.limit_to::<ZoneRecordData<_, _>>()),
+                                1 => cnt!(sec.limit_to::<A>()),
+                                5 => cnt!(sec.limit_to::<Cname<_>>()),
+                                6 => cnt!(sec.limit_to::<Soa<_>>()),
+                                15 => cnt!(sec.limit_to::<Mx<_>>()),
+                                41 => cnt!(sec.limit_to::<Opt<_>>()),
+                                _ => "badcode".to_string(),
+                            }
+                        }
+                        _ => "none".to_string(),
+                    }
+                }
+                "K" => {
+                    let target = MessageBuilder::new_vec().question();
+                    match msg.copy_records(target.answer(), |rr| rr.into_record::<UnknownRecordData<_>>().ok().flatten()) {
+                        Ok(b) => { let m2 = b.into_message(); let c = m2.header_counts(); format!("k:{}/{}/{}", c.ancount(), c.nscount(), c.arcount()) }
+                        Err(domain::base::message::CopyRecordsError::Parse(e)) => format!("k:E{}", err_word(&e)),
+                        Err(_) => "k:push".to_string(),
+                    }
+                }
+                "G" => match msg.get_last_additional::<AllRecordData<_, _>>() { Some(r) => format!("g:{}", r.rtype().to_int()), None => "g:none".to_string() },
+                "P" => format!("p:{}", dig_skeleton(&format!("{}", msg.for_slice_ref().display_dig_style()))),
                 _ => "badop".to_string(),
             };
             out.push(r);
@@ -255,7 +330,7 @@ fn gen_ops(r: &mut Rng) -> String {
     let mut live = 0u64;
     let mut v: Vec<String> = vec![];
     for k in 0..n {
-        let c = if k < 2 { r.below(4) } else { r.below(22) };
+        let c = if k < 2 { r.below(4) } else { r.below(28) };
         let idx = if live == 0 { 0 } else if r.chance(1, 12) { live + r.below(2) } else { r.below(live) };
         let s = match c {
             0 => { live += 1; "Q".to_string() }
@@ -273,7 +348,12 @@ fn gen_ops(r: &mut Rng) -> String {
             18 => "S".to_string(),
             19 => "C".to_string(),
             20 => format!("l{}", r.below(40)),
-            _ => "t".to_string(),
+            21 => "t".to_string(),
+            22 => "O".to_string(),
+            23 | 24 => format!("L{}_{}", idx, *r.pick(&[0u32, 65537, 65536, 1, 5, 6, 15, 41])),
+            25 => "K".to_string(),
+            26 => "G".to_string(),
+            _ => "P".to_string(),
         };
         v.push(s);
     }
@@ -320,7 +400,7 @@ fn obs_xfr1(bytes: &[u8]) -> String {
             let h = msg.header(); let c = msg.header_counts();
             let pre = !msg.is_error() && h.qr() && h.opcode() == domain::base::iana::Opcode::QUERY && !h.tc() && c.ancount() != 0 && c.nscount() == 0 && c.qdcount() == 1;
             pre && matches!(msg.qtype(), Some(Rtype::AXFR) | Some(Rtype::IXFR)) && match msg.answer() {
-                Ok(mut a) => match a.next() { Some(Ok(r)) => [45u16].contains(&r.rtype().to_int()), _ => false },
+                Ok(mut a) => match a.next() { Some(Ok(r)) => ([] as [u16; 0]).contains(&r.rtype().to_int()), _ => false },
                 Err(_) => false,
             }
         };
@@ -1405,8 +1485,9 @@ fn main() {
 
 fn real_main() {
     let a = args();
+    if a.extra.len() >= 2 && a.extra[0] == "debugdig" { let b = unhex(&a.extra[1]); let m = Message::from_octets(&b[..]).unwrap(); println!("{}", m.display_dig_style()); return; }
     if a.extra.len() >= 3 && a.extra[0] == "debugops" { println!("{}", obs_ops(&unhex(&a.extra[1]), &a.extra[2])); return; }
-    let mut out = Out::new(&a, "C01", 25);
+    let mut out = Out::new(&a, "C01", 120);
     install_hook();
     let mut r = Rng::new(a.seed);
     let scale = a.scale * if a.thorough { 20 } else { 1 };
